@@ -1,6 +1,7 @@
 //! Large-scope drivers for the STAR / ADSS family: random scenarios recorded for
 //! Trace_Star (C01, C02), byte-level tamper sweep (C05), ADSS size sweep (C16).
 use crate::star::*;
+use crate::star::oprf_randomness;
 use crate::util::*;
 use adss::Commune;
 use ppoprf::ppoprf::Server as OprfServer;
@@ -970,6 +971,81 @@ pub fn length_sweep(a: &Args) -> Report {
     }
   }
   rep.sample(json!({"property": prop, "lengths": format!("0..={maxl}"), "family": "prefixes of one random string"}));
+  rep.traces = 1;
+  rep
+}
+
+// ---------------------------------------------------------------------------
+/// `vh generator-reuse --seed S` (C01): a report is a function of (measurement, epoch, threshold,
+/// associated data, the 32-byte randomness) — not of what the `MessageGenerator` object was used
+/// for before.  One generator object is used with a first randomness value (locally derived, or via
+/// `share_with_local_randomness`) and then with a second one (from the randomness server); the second
+/// report must combine with the reports of clients that only ever used the second value.
+pub fn generator_reuse(a: &Args) -> Report {
+  let mut rep = Report::new("generator-reuse");
+  let seed = a.u64("seed", 1);
+  let mut rng = rng_from(seed, 4711);
+  let oprf = OprfServer::new(vec![0, 1, 2, 3]).expect("oprf");
+  for case in 0..12u64 {
+    let t: u32 = 2 + (case % 3) as u32;
+    let m = rand_bytes(&mut rng, [5usize, 32, 170][(case % 3) as usize]);
+    let e = vec![(case % 4) as u8];
+    let rnd2 = match oprf_randomness(&oprf, &m, e[0], case % 2 == 0) {
+      Some(r) => r,
+      None => continue,
+    };
+    // the reused generator
+    let mg = sta_rs::MessageGenerator::new(sta_rs::SingleMeasurement::new(&m), t, &e);
+    let mut rnd1 = [0u8; 32];
+    mg.sample_local_randomness(&mut rnd1);
+    let first_use = match case % 3 {
+      0 => guard(|| sta_rs::Message::generate(&mg, &rnd1, None).is_ok()),
+      1 => guard(|| mg.share_with_local_randomness().is_ok()),
+      _ => guard(|| sta_rs::Message::generate(&mg, &rnd1, Some(sta_rs::AssociatedData::new(b"first"))).is_ok()),
+    };
+    let _ = first_use;
+    let second = match guard(|| sta_rs::Message::generate(&mg, &rnd2, Some(sta_rs::AssociatedData::new(b"second use")))) {
+      Guard::Done(Ok(x)) => x,
+      _ => continue,
+    };
+    // other clients, fresh generators, second randomness only
+    let mut shares: Vec<Share> = vec![second.share.clone()];
+    let mut others = Vec::new();
+    for k in 0..t {
+      let g2 = sta_rs::MessageGenerator::new(sta_rs::SingleMeasurement::new(&m), t, &e);
+      if let Guard::Done(Ok(x)) = guard(|| sta_rs::Message::generate(&g2, &rnd2, Some(sta_rs::AssociatedData::new(&[k as u8; 9])))) {
+        shares.push(x.share.clone());
+        others.push(x);
+      }
+    }
+    rep.evaluations += 1;
+    let first_name = ["generate(rnd1)", "share_with_local_randomness", "generate(rnd1, aux)"][(case % 3) as usize];
+    let ctx = json!({"case": case, "threshold": t, "first_use": first_name});
+    if others.iter().any(|o| o.tag != second.tag) {
+      rep.violation("C01", "Message::generate", "generator-reuse:tag-ignores-randomness",
+        "the tag of a report generated with the second randomness differs from the tag other clients derive from that randomness".into(), ctx.clone());
+    }
+    for order in 0..2 {
+      let sel: Vec<Share> = if order == 0 { shares[..t as usize].to_vec() } else { shares.iter().rev().take(t as usize).cloned().collect() };
+      match guard(|| share_recover(&sel).map(|c| c.get_message()).map_err(|e| e.to_string())) {
+        Guard::Done(Ok(r0)) => {
+          let mut key = vec![0u8; 16];
+          derive_ske_key(&r0, &e, &mut key);
+          let pt = second.ciphertext.decrypt(&key, "star_encrypt");
+          let good = load_bytes(&pt).map(|x| x == m.as_slice()).unwrap_or(false);
+          if !good {
+            rep.violation("C01", "Message::generate", "generator-reuse:report-does-not-open",
+              "the report generated on second use does not open under the group's key".into(), ctx.clone());
+          } else {
+            rep.nontrivial(format!("{case}:{order}"));
+          }
+        }
+        _ => rep.violation("C01", "share_recover", "generator-reuse:recovery-failed",
+          "a report generated from a re-used MessageGenerator (second randomness) does not combine with the other clients' reports".into(), ctx.clone()),
+      }
+    }
+    rep.sample(ctx);
+  }
   rep.traces = 1;
   rep
 }
